@@ -103,11 +103,16 @@ static bool ref_port(const char *p, unsigned *out)
 }
 
 #ifdef OP_PARSE_HP
+static bool m_isdigit_all(const char *p) { if (*p == 0) return false; for (size_t i = 0; i < NTAIL; i++) { if (p[i] == 0) return true; if (p[i] < '0' || p[i] > '9') return false; } return true; }
 int main(void)
 {
     char in[PLEN + 1 + NTAIL + 1];
     memcpy(in, PROTO ":", PLEN + 1);
     for (size_t i = 0; i < NTAIL; i++) in[PLEN + 1 + i] = (char)nd_u8();
+#ifdef FIXHOST
+    /* long port fields: the host is the fixed name "a", everything after "a:" is arbitrary */
+    in[PLEN + 1] = 'a'; in[PLEN + 2] = ':';
+#endif
     in[PLEN + 1 + NTAIL] = '\0';
     struct xcm_addr_host host; uint16_t port = 0;
     memset(&host, 0, sizeof(host));
@@ -157,12 +162,17 @@ int main(void)
 #else
 	WITNESS(isname && refport > 99, "DNS name with a 3-digit port accepted");
 #endif
-#if NTAIL >= 9
+#if NTAIL >= 9 && !defined(FIXHOST)
 	WITNESS(is4, "dotted quad accepted");
 #endif
+#ifndef FIXHOST
 	WITNESS(is6 && !wild6, "IPv6 literal accepted");
+#endif
     } else if (!is6 || wild6)
 	CHECK(!ok, "C12: input with the documented syntax is accepted");
+#ifdef FIXHOST
+    if (rc != 0) WITNESS(colon == 1 && rl == NTAIL && m_isdigit_all(rest + 2), "a port field of 12 decimal digits is refused");
+#endif
     return 0;
 }
 #endif
